@@ -4,10 +4,12 @@ go 1.25.0
 
 require (
 	github.com/anishathalye/porcupine v1.3.0
+	github.com/sirupsen/logrus v1.9.4
 	github.com/zmap/zcrypto v0.0.0
 )
 
 require (
+	github.com/mreiferson/go-httpclient v0.0.0-20201222173833-5e475fde3a4d // indirect
 	github.com/weppos/publicsuffix-go v0.50.4-0.20260715080728-6ed62ce99a4a // indirect
 	golang.org/x/crypto v0.54.0 // indirect
 	golang.org/x/net v0.57.0 // indirect
